@@ -66,10 +66,17 @@ CHECKS = {
  "C18": ("4/C18", "", "--budget 30m",
          "Bounded model checking of layout insensitivity: 12 programs as token lists covering let, assignment, if/else, for (variable and call iterables, nested), fn, hash, operators, strings, helper calls, with statements directly after closing braces; re-layouts: arbitrary white space (space, tab, LF, CR) at any token gap incl. before %>, # line comments (LF and CRLF) with arbitrary bodies at any gap, every way of cutting the statement sequence into tags (space, newline, semicolon, tag split), <%# %> comment tags between tags; each must render exactly what the canonical layout renders.",
          "Bounds quick: one varying gap, separators <= 1 byte, comment bodies <= 1 byte; thorough: two gaps, <= 2 bytes. Known finding (not repaired, see known_findings.json): comment-tag bodies containing a quote, back quote or #."),
+
+ "C17": ("4/C17", "", "--budget 30m",
+         "Bounded model checking of composition = inlining: for 7 bodies (text, output tags reading data and caller variables, loop, conditional, let, + and raw) and arbitrary data values, partial(name, data) / partial with layout / nested layout / nested partials to depth 3 / contentFor + contentOf (emits nothing where defined; used once, twice with different data, with omitted data, undefined with and without default block) / a recording block helper must produce exactly what the same source renders to inline in the caller's scope extended with the data (the inline rendering is computed by plush itself on the inlined source); JavaScript escaping exactly for a javascript content type and a non-.js extension.",
+         "Bounds quick: data values <= 1 arbitrary NUL-free byte; thorough <= 2 bytes. The inline reference relies on C01/C02 for the plain rendering."),
+ "C20": ("4/C20", "", "--budget 30m",
+         "Bounded model checking of truncate / htmlEscape / jsEscape / raw: truncate over every byte string (invalid UTF-8 included, through the forking UTF-8 decoder), every 64-bit size and arbitrary trails against its laws (unchanged if short; else prefix of s on a character boundary + trail, at most max(size, len(trail)) characters), defaults, and the template form; htmlEscape output decodes to its input with no raw special; jsEscape on arbitrary ASCII plus concrete non-ASCII cases has no < > & =, no unescaped quote, no raw line break; raw(s) is byte-identical through Render. toJSON is NOT checked: encoding/json cannot be encoded within reach (sub-claim excluded, see DESIGN.md).",
+         "Bounds quick: |s| <= 3, |trail| <= 1; thorough |s| <= 5, |trail| <= 2; jsEscape <= 2 (3) symbolic ASCII bytes on the engine's model of text/template.JSEscape (validated against the stdlib by selftest)."),
 }
 
 PENDING = "check not built yet in this session (build in progress, see DESIGN.md section 8)"
-NA = {}
+NA = {"C14": "the schedule encoding (two logical threads, access log, SMT timestamps) is being built; until it is finished goroutine interleavings are outside the encoder - no other technique is substituted"}
 
 def main():
     props = [json.loads(l)["id"] for l in open("properties.jsonl")]
